@@ -23,12 +23,20 @@ type Guard struct {
 func forwardPreds(b *ssa.BasicBlock) []*ssa.BasicBlock {
 	var out []*ssa.BasicBlock
 	for _, p := range b.Preds {
-		if !b.Dominates(p) {
+		if !b.Dominates(p) && !Infeasible[Edge{p, b}] {
 			out = append(out, p)
 		}
 	}
 	return out
 }
+
+// Edge is a CFG edge.
+type Edge struct{ From, To *ssa.BasicBlock }
+
+// Infeasible is the set of CFG edges proved infeasible by a lemma (e.g. the !ok edge of a type
+// assertion whose operand is proved to always have the asserted dynamic type).  Rules add to it
+// only after discharging the lemma as an obligation of its own.
+var Infeasible = map[Edge]bool{}
 
 // BlockGuards returns every branch condition whose *edge* dominates block b: for each dominator X
 // of b (b included) that has exactly one forward predecessor P ending in an If with distinct
